@@ -444,7 +444,7 @@ def eye(N, M=None, dtype=None):
     N = int(N)
     M = N if M is None else int(M)
     out = zeros((N, M))._v
-    for i in range(min(N, M)):
+    for i in range(builtins.min(N, M)):
         out[i, i] = _SC1
     return ndarray(out)
 
@@ -646,7 +646,7 @@ def trace(a):
     if v.ndim != 2:
         raise Unsupported("trace of non-matrix")
     acc = _SC0
-    for i in range(min(v.shape)):
+    for i in range(builtins.min(v.shape)):
         acc = acc + v[i, i]
     return ndarray(_wrap0(acc))
 
@@ -665,8 +665,8 @@ def diag(a, k=0):
         return ndarray(out)
     if v.ndim != 2:
         raise ValueError("diag requires 1-d or 2-d input")
-    out = _np.empty((min(v.shape),), dtype=object)
-    for i in range(min(v.shape)):
+    out = _np.empty((builtins.min(v.shape),), dtype=object)
+    for i in range(builtins.min(v.shape)):
         out[i] = v[i, i]
     return ndarray(out)
 
@@ -697,7 +697,7 @@ def outer(a, b):
 
 def kron(a, b):
     A, B = _obj(a), _obj(b)
-    nd = max(A.ndim, B.ndim, 1)
+    nd = builtins.max(A.ndim, B.ndim, 1)
     A = A.reshape((1,) * (nd - A.ndim) + A.shape)
     B = B.reshape((1,) * (nd - B.ndim) + B.shape)
     if nd == 1:
@@ -938,7 +938,7 @@ def where(cond, x=None, y=None):
     b = _np.empty(v.shape, dtype=object)
     for idx in _np.ndindex(v.shape):
         b[idx] = _tob(v[idx])
-    return tuple(LazyIdx(b, d) for d in range(max(v.ndim, 1)))
+    return tuple(LazyIdx(b, d) for d in range(builtins.max(v.ndim, 1)))
 
 
 def nonzero(a):
@@ -954,7 +954,7 @@ def argmax(a, axis=None):
         return ndarray(_wrap0(SC.lift(0)))
     if builtins.all(x.is_const() and x.is_real() for x in v):
         vals = [x.re.cval() for x in v]
-        return ndarray(_wrap0(SC.lift(vals.index(max(vals)))))
+        return ndarray(_wrap0(SC.lift(vals.index(builtins.max(vals)))))
     raise Unsupported("argmax of symbolic values")
 
 
@@ -1031,3 +1031,208 @@ class _Linalg:
 
 
 linalg = _Linalg()
+
+
+# ---- further functions (ordering by solver-decided comparisons; anything not modelled is reported as Unsupported) ----
+
+
+def _pick(xs, better):
+    best = xs[0]
+    for x in xs[1:]:
+        if builtins.bool(better(x, best)):
+            best = x
+    return best
+
+
+def _reduce_order(a, axis, better):
+    v = _obj(a)
+    if axis is None:
+        flat = list(v.flatten())
+        if not flat:
+            raise ValueError("zero-size array to reduction operation")
+        return ndarray(_wrap0(_pick(flat, better)))
+    v2 = _np.moveaxis(v, int(axis), -1)
+    out = _np.empty(v2.shape[:-1], dtype=object)
+    for idx in _np.ndindex(out.shape):
+        out[idx] = _pick(list(v2[idx]), better)
+    return ndarray(out)
+
+
+def max(a, axis=None):
+    return _reduce_order(a, axis, lambda x, b: x > b)
+
+
+def min(a, axis=None):
+    return _reduce_order(a, axis, lambda x, b: x < b)
+
+
+amax = max
+amin = min
+
+
+def maximum(a, b):
+    A, Bv = _np.broadcast_arrays(_obj(a), _obj(b))
+    out = _np.empty(A.shape, dtype=object)
+    for idx in _np.ndindex(A.shape):
+        out[idx] = A[idx] if builtins.bool(A[idx] >= Bv[idx]) else Bv[idx]
+    return ndarray(out)
+
+
+def minimum(a, b):
+    A, Bv = _np.broadcast_arrays(_obj(a), _obj(b))
+    out = _np.empty(A.shape, dtype=object)
+    for idx in _np.ndindex(A.shape):
+        out[idx] = A[idx] if builtins.bool(A[idx] <= Bv[idx]) else Bv[idx]
+    return ndarray(out)
+
+
+def clip(a, a_min=None, a_max=None):
+    out = asarray(a)
+    if a_min is not None:
+        out = maximum(out, a_min)
+    if a_max is not None:
+        out = minimum(out, a_max)
+    return out
+
+
+def argmin(a, axis=None):
+    v = list(_obj(a).flatten())
+    best = 0
+    for i in range(1, len(v)):
+        if builtins.bool(v[i] < v[best]):
+            best = i
+    return ndarray(_wrap0(SC.lift(best)))
+
+
+def cumsum(a, axis=None):
+    v = _obj(a)
+    if axis is None:
+        v = v.flatten()
+        axis = 0
+    out = v.copy()
+    v2 = _np.moveaxis(out, int(axis), 0)
+    for i in range(1, v2.shape[0]):
+        v2[i] = v2[i - 1] + v2[i]
+    return ndarray(out)
+
+
+def mean(a, axis=None):
+    v = _obj(a)
+    n = v.size if axis is None else v.shape[int(axis)]
+    return sum(a, axis) / n
+
+
+def sign(a):
+    def f(x):
+        if builtins.bool(x > 0):
+            return _SC1
+        if builtins.bool(x < 0):
+            return SC.lift(-1)
+        return _SC0
+
+    return _map(f, a)
+
+
+def isnan(a):
+    return ndarray(_asobj(_np.frompyfunc(lambda x: False, 1, 1)(_obj(a))))
+
+
+def isfinite(a):
+    return ndarray(_asobj(_np.frompyfunc(lambda x: True, 1, 1)(_obj(a))))
+
+
+def round(a, decimals=0):
+    return _map(lambda x: SC.lift(builtins.round(float(_need_const_real(x, "round")), int(decimals))), a)
+
+
+def expand_dims(a, axis):
+    return ndarray(_np.expand_dims(_obj(a), axis))
+
+
+def squeeze(a, axis=None):
+    return ndarray(_np.squeeze(_obj(a), axis))
+
+
+def tensordot(a, b, axes=2):
+    return ndarray(_asobj(_np.tensordot(_obj(a), _obj(b), axes=axes)))
+
+
+def ones_like(a, dtype=None):
+    return ones(asarray(a).shape)
+
+
+def full(shape, fill_value, dtype=None):
+    z = zeros(shape)
+    z._v.fill(_lift(fill_value))
+    return z
+
+
+def linspace(start, stop, num=50):
+    return array(_np.linspace(float(start), float(stop), int(num)))
+
+
+def _derived_angle(build):
+    """a fresh angle phi with atoms (cos phi, sin phi) tied to symbolic data by `build(c, s) -> list of formulas`"""
+    n = len(core.CTX.names)
+    t = core.angle(f"dang{n}", 1)
+    tv = next(iter(t.vars()))
+    _m, c, s = core.CTX.angles[tv]
+    extra = build(Poly.var(c), Poly.var(s))
+    core.CTX.defs[c] = list(core.CTX.defs[c]) + list(extra)
+    core.CTX.defs[s] = core.CTX.defs[c]
+    return SC(t), c, s
+
+
+def arctan(a):
+    def f(x):
+        if x.im.t:
+            raise Unsupported("arctan of complex argument")
+        if x.is_const():
+            return SC.lift(math.atan(float(x.re.cval())))
+        # phi in (-pi/2, pi/2) with tan(phi) = x  <=>  sin(phi) = x cos(phi), cos(phi) > 0
+        q = x.re
+        ang, c, s = _derived_angle(lambda cp, sp: [f_cmp(sp - q * cp, "=="), f_cmp(cp, ">")])
+        core.CTX.meta[c] = ("atan", q, s)
+        return ang
+
+    return _map(f, a)
+
+
+def arctan2(y, x):
+    Y, X = _np.broadcast_arrays(_obj(y), _obj(x))
+    out = _np.empty(Y.shape, dtype=object)
+    for idx in _np.ndindex(Y.shape):
+        yy, xx = Y[idx], X[idx]
+        if yy.im.t or xx.im.t:
+            raise Unsupported("arctan2 of complex argument")
+        if yy.is_const() and xx.is_const():
+            out[idx] = SC.lift(math.atan2(float(yy.re.cval()), float(xx.re.cval())))
+            continue
+        r = core.sqrt_poly(yy.re * yy.re + xx.re * xx.re)
+        explore.EXP.check_divisor(SC(r))
+        ang, c, s = _derived_angle(lambda cp, sp: [f_cmp(cp * r - xx.re, "=="), f_cmp(sp * r - yy.re, "==")])
+        core.CTX.meta[c] = ("atan2", yy.re, xx.re, s)
+        out[idx] = ang
+    return ndarray(out)
+
+
+def _angle_sym(a):
+    def f(x):
+        if x.is_const():
+            return SC.lift(math.atan2(float(x.im.cval()), float(x.re.cval())))
+        r = core.sqrt_poly(x.abs2())
+        explore.EXP.check_divisor(SC(r))
+        ang, c, s = _derived_angle(lambda cp, sp: [f_cmp(cp * r - x.re, "=="), f_cmp(sp * r - x.im, "==")])
+        core.CTX.meta[c] = ("atan2", x.im, x.re, s)
+        return ang
+
+    return _map(f, a)
+
+
+angle = _angle_sym
+
+
+def __getattr__(name):
+    if name.startswith("_"):
+        raise AttributeError(name)
+    raise Unsupported(f"jax.numpy.{name} is not modelled by the symx shim")
